@@ -23,7 +23,7 @@ fn rsets() -> Vec<Vec<(u32, i32)>> {
 }
 
 fn cfg_one(thorough: bool) -> Cfg {
-    let universe = if thorough { vec![i64::MIN + 1, i64::MIN + 2, -1, 0, 1, i64::MAX - 1, i64::MAX] } else { vec![i64::MIN + 1, -1, 0, i64::MAX - 1, i64::MAX] };
+    let universe = if thorough { vec![i64::MIN + 1, i64::MIN + 2, -1, 0, 1, i64::MAX - 1, i64::MAX] } else { vec![i64::MIN + 1, -1, 0, 1, i64::MAX] };
     Cfg {
         name: "one-table".into(),
         universe,
@@ -45,7 +45,8 @@ fn cfg_two(thorough: bool) -> Cfg {
         probes: vec![i64::MAX - 1],
         tables: vec![("t".into(), false), ("v".into(), true)],
         schemas: vec![Schema::AllPresent, Schema::Dropped(0), Schema::Dropped(1), Schema::NotTabletBased],
-        rsets: rsets(),
+        // here the never-known uuid is the ONLY replica: a tablet with an empty usable replica list
+        rsets: vec![vec![(LABEL_A, 0), (LABEL_B, 1)], vec![(LABEL_X, 0)], vec![(LABEL_C, 2), (LABEL_B, 0)]],
         combos: thorough,
         move_b: true,
         audit_mod: 50,
@@ -421,7 +422,7 @@ fn main() {
         let steps = r.tier().pick(20_000u64, 1_000_000u64);
         walk(&r, steps, r.args.seed);
     }
-    r.set_rule("E-BFS to a fixpoint on the real TabletsInfo/ClusterState (hook H-TABLETS; tablets learnt from payload bytes through the production parser/translator/update_tablets, refreshes through the production topology diff + perform_maintenance). Stage one: one table, token universe {MIN+1,(MIN+2),-1,0,(1),MAX-1,MAX} (bracketed: thorough); events = learn [a,b] for EVERY a<=b in U x replica sets {known A+B in two DCs; A + never-known X; C+B where C leaves/re-joins} and refresh with EVERY subset of {C joins/leaves, A re-created with a new address, B re-created in another DC} x schema {present, table dropped, (keyspace not tablet-based, keyspace gone)}. Stage two: a table and a materialized view over 3-4 tokens. After EVERY transition: range list sorted+disjoint; stored set = reference alive set replica for replica (node object identity, address, DC); hidden flags sound; every token of U + probes answered exactly as the latest-wins reference (nothing if overlapped/discarded); per-DC lists and DC-restricted lookups = restriction of the full list; equal canonical forms answer identically. distinct_nontrivial = distinct canonical states + accepted payload cases. Walk: seeded random i64 ranges, labelled sampled.");
+    r.set_rule("E-BFS to a fixpoint on the real TabletsInfo/ClusterState (hook H-TABLETS; tablets learnt from payload bytes through the production parser/translator/update_tablets, refreshes through the production topology diff + perform_maintenance). Stage one: one table, token universe quick {MIN+1,-1,0,1,MAX} / thorough {MIN+1,MIN+2,-1,0,1,MAX-1,MAX}; events = learn [a,b] for EVERY a<=b in U x replica sets {known A+B in two DCs; A + never-known X; C+B where C leaves/re-joins} and refresh with EVERY subset of {C joins/leaves, A re-created with a new address, B re-created in another DC} x schema {present, table dropped, (keyspace not tablet-based, keyspace gone)}. Stage two: a table and a materialized view over 3-4 tokens. After EVERY transition: range list sorted+disjoint; stored set = reference alive set replica for replica (node object identity, address, DC); hidden flags sound; every token of U + probes answered exactly as the latest-wins reference (nothing if overlapped/discarded); per-DC lists and DC-restricted lookups = restriction of the full list; equal canonical forms answer identically. distinct_nontrivial = distinct canonical states + accepted payload cases. Walk: seeded random i64 ranges, labelled sampled.");
     r.assume("node identity is observed through (host id, address, datacenter, Arc identity with ClusterState::known_nodes); A's concrete address is canonicalised to 'is the current address' (relabelling)");
     r.assume("BFS drives synchronous twins of ClusterState::new/new_updated (identical private steps minus spawn_blocking); a recorded subset of histories is replayed through the real async constructors and compared state by state (traces_validated_against_impl)");
     r.assume("the long walk over full-range i64 tokens is sampled (seeded) and never what coverage rests on");
